@@ -91,6 +91,24 @@ pub fn main_batch(tier: &str) -> i32 {
             "cli_short_transfer": c.get("x_fault_fired:short_transfer"),
         }),
     );
+    extra.insert("seeds".into(), json!(c.get("programs") + c.get("x_programs")));
+    extra.insert("references_in_pristine_process".into(), json!(c.get("reference_in_pristine_process")));
+    {
+        let mut rare = serde_json::Map::new();
+        for (k, v) in &c.n {
+            if let Some(kind) = k.strip_prefix("rare:") {
+                rare.insert(kind.to_string(), json!(v));
+            }
+        }
+        extra.insert("rare_conditions_hit".into(), serde_json::Value::Object(rare));
+        let mut envs = serde_json::Map::new();
+        for (k, v) in &c.n {
+            if let Some(kind) = k.strip_prefix("env:") {
+                envs.insert(kind.to_string(), json!(v));
+            }
+        }
+        extra.insert("environments_run".into(), serde_json::Value::Object(envs));
+    }
     extra.insert("sut_panics".into(), json!(c.get("sut_panics")));
     extra.insert("counters".into(), c.to_json());
     extra.insert(
